@@ -271,9 +271,11 @@ Example C05_query_content_order_refuted :
   let kw := QueryCore.QK in
   forall ts, ts = [kw QueryCore.KSelect; x1; kw QueryCore.KOffset; n1; kw QueryCore.KLimit; n2] \/
              ts = [kw QueryCore.KSelect; x1; kw QueryCore.KLimit; n1; QueryCore.QE TComma; n2] ->
-  exists q, QueryCore.parse_query QueryTables.qd_mysql 10 ts = Ok (q, []) /\
-    filter QueryCoreInv.qlit ts = [x1; n1; n2] /\ filter QueryCoreInv.qlit (QueryCore.qtoks q) = [x1; n2; n1].
-Proof. intros x1 n1 n2 kw ts [-> | ->]; eexists; vm_compute; repeat split; reflexivity. Qed.
+  match QueryCore.parse_query QueryTables.qd_mysql 10 ts with
+  | Ok (q, []) => filter QueryCoreInv.qlit ts = [x1; n1; n2] /\ filter QueryCoreInv.qlit (QueryCore.qtoks q) = [x1; n2; n1]
+  | _ => False
+  end.
+Proof. intros x1 n1 n2 kw ts [-> | ->]; vm_compute; split; reflexivity. Qed.
 
 (** the exclusion: [SELECT x1 LIKE x2 ESCAPE x3] prints [ESCAPE 'x3'] - the word becomes a string *)
 Example C05_query_escape_word_refuted :
